@@ -56,6 +56,11 @@ CLAIMED = {
     "C11": ("§4 C11", "the same Convert.tla projections decided by TLC for real write / read round trips in a temporary "
             "directory (HIF incl. simplicial complexes and collections, JSON with casts, edge list, bipartite edge "
             "list, incidence matrix incl. 1 x m and n x 1, four delimiters)."),
+    "C12": ("§4 C12", "Matrices.tla defines incidence, adjacency (order, s, weighted), degree vector, intersection "
+            "profile, clique motif, adjacency tensor, order-d / multi-order (exact rationals) / normalised Laplacians; "
+            "TLC compares every returned matrix (sparse and dense, with index maps) entry by entry on TLC-enumerated "
+            "hypergraphs under relabellings, and proves on the specification's own matrices symmetry, zero row sums "
+            "and the sum-of-squares identity that certifies positive semidefiniteness."),
 }
 NOTE = ("Trusted: TLC, the harness projection/adapter (self-tested on every run by corrupting recorded fields), "
         "and the bounded universes listed in the evidence; outside them only random histories.")
